@@ -93,6 +93,7 @@ func genHdrOps(r *R, n int) []HdrOp {
 }
 
 func (c11) Gen(r *R, tier string) any {
+	allowHugeOriginLists = false
 	observeUnknownAPI = false
 	p := &C11Plan{StartZero: r.P(0.5), Salt: r.Intn(1 << 12)}
 	n := r.Range(1, 3)
@@ -241,6 +242,24 @@ func gridRequests() []Req {
 			}
 		}
 	}
+	// field-line COUNTS on type-width boundaries (a legal request: 256 short lines are a few KB)
+	many := func(v string, n int) []string {
+		l := make([]string, n)
+		for i := range l {
+			l[i] = v
+		}
+		return l
+	}
+	for _, n := range []int{255, 256, 257, 512} {
+		out = append(out,
+			Req{Method: "OPTIONS", H: []HV{{hOrigin, many("https://example.com", n)}, {hACRM, []string{"PUT"}}}},
+			Req{Method: "OPTIONS", H: []HV{{hOrigin, []string{"https://example.com"}}, {hACRM, many("PUT", n)}}},
+		)
+	}
+	out = append(out,
+		Req{Method: "OPTIONS", H: []HV{{hOrigin, many("https://example.com", 256)}, {hACRM, many("PUT", 256)}}},
+		Req{Method: "GET", H: []HV{{hOrigin, many("https://example.com", 256)}}},
+	)
 	return out
 }
 
